@@ -329,7 +329,8 @@ ATTEMPTED = []
 
 
 def main(tier):
-    bounds = {"dimensions": "2 and 3", "arguments": "arbitrary reals of either sign, +-inf entries; theta > 0, eta in [0,1] arbitrary",
+    bounds = {"histories_and_variants": 'Clayton calculus clauses (mixed derivative, conditional distribution, inverse) at theta = 1 only, every eta, every argument of every orthant, d = 2, 3; also for a copula whose theta was assigned after construction with 3.0; all-infinite vertex for the independent and dependent copulas',
+              "dimensions": "2 and 3", "arguments": "arbitrary reals of either sign, +-inf entries; theta > 0, eta in [0,1] arbitrary",
               "outside": "Clayton d-increasing (needs the sign of a mixed derivative of pow expressions: see the AD obligations when present), "
                          "monotone-limit behaviour of the conditional distribution, FrankLevyCopula (not offered by the model helpers)"}
     return run_check(PID, tier, harnesses(tier), expect=EXPECT, attempted=ATTEMPTED, bounds=bounds,
